@@ -138,7 +138,9 @@ class TimeMixIn(object):
         :
             new instance of |ASN.1| value
         """
-        text = dt.strftime(cls._yearsDigits == 4 and '%Y%m%d%H%M%S' or '%y%m%d%H%M%S')
+        text = dt.strftime(cls._yearsDigits == 4 and '%m%d%H%M%S' or '%y%m%d%H%M%S')
+        if cls._yearsDigits == 4:
+            text = '%.4d' % dt.year + text
         if cls._hasSubsecond:
             text += '.%d' % (dt.microsecond // 1000)
 
